@@ -324,7 +324,7 @@ def world_summary(r):
                           "files": [[f.length, "/".join(x.decode("utf-8", "replace") for x in f.path)] for f in g.files]} for g in w.gts],
             "files": {"/".join(x.decode("utf-8", "replace") for x in p): len(v[0]) for p, v in sorted(w.files.items())},
             "scan": ["/".join(x.decode("utf-8", "replace") for x in s) for s in w.scan], "resize": w.resize, "threads": w.threads,
-            "faults": w.faults, "meta_faults": getattr(w, "meta_faults", []), "sched_fs": getattr(w, "sched_fs", None), "crash": w.crash, "tag": w.tag}
+            "faults": w.faults, "meta_faults": getattr(w, "meta_faults", []), "sched_fs": getattr(w, "sched_fs", None), "partial": getattr(w, "partial", None), "crash": w.crash, "tag": w.tag}
 
 def run(pid, tier, seed, replay=None, props=None):
     cfg = (props or PROPS)[pid]
@@ -348,7 +348,23 @@ def run(pid, tier, seed, replay=None, props=None):
         answers = C.run_model([payload["line"]])
         print("stored answer : " + payload.get("answer", "")[:3000])
         print("model now     : " + answers[0][:3000])
-        print("(the replay file holds the full world; re-execution of the implementation on it: ./check %s --tier quick with VERIF_SEED=%s)" % (pid, payload.get("seed")))
+        if payload["line"].startswith("run "):
+            # re-execute the implementation on the stored world and judge what it does NOW
+            w = W.world_from_line(payload["line"], payload.get("world"))
+            r = W.execute(w)
+            now = C.run_model([r.line])[0]
+            print("implementation re-executed on the stored world: result %s, %d operations" % (r.result, len(r.ops)))
+            for note in w.replay_notes:
+                print("note          : " + note)
+            print("answer now    : " + now[:3000])
+            c = C.Case(r.request, r.observation, now)
+            mine = [f for f in c.fails if any(f.startswith(p) for p in cfg["clauses"])]
+            if mine:
+                print("VIOLATION property=%s replay=%s" % (pid, replay))
+                return 1
+            print("the property's clauses hold on this world now" + ("" if c.agree else " (model and implementation disagree on it)"))
+            return 0
+        print("(not a run-level case: re-execution of the implementation: ./check %s --tier quick with VERIF_SEED=%s)" % (pid, payload.get("seed")))
         return 0
     worlds = cfg["worlds"](tier, seed)
     cases = cfg.get("runner", run_worlds)(worlds)
